@@ -3,7 +3,7 @@ import vlib
 CFG = dict(
     imports=["From Verif.C31 Require Import Model Spec Split."],
     checker="check_any",
-    n=dict(quick=110, thorough=3000),
+    n=dict(quick=110, thorough=1320),
     shard=31,
     rule="14 splitter cases (splitIPSetUpdate / splitIPSetDeltaUpdate on run-length encoded member lists of 0 .. 3x MaxMembersPerMessage "
          "members, compared with the chunking model and a completeness oracle), then two scripted scenarios (every rule field referencing an IP set, reference changes under a connected workload, "
